@@ -277,13 +277,13 @@ func peekHead(br *bufio.Reader) ([]byte, error) {
 		if err != nil {
 			return b, err
 		}
+		if len(b) > 60000 {
+			return b, errors.New("response head too large")
+		}
 		if br.Buffered() > n {
 			n = br.Buffered()
 		} else {
 			n++
-		}
-		if n > 60000 {
-			return b, errors.New("response head too large")
 		}
 	}
 }
